@@ -1,8 +1,13 @@
 /- line-protocol handler for the Align model (C03).
-   tree   : (ts <series>) | (df <frame>) | (arr (L cell*)) | (o <value>) | (L tree*) | (T tree*) | (D (<hexkey> tree)*)
-   how    : ij | oj | lj | rj          method : N | ffill | bfill        colhow : ij | oj | lj | rj | N
+   tree   : (ts <series>) | (df <frame>) | (arr (L cell*)) | (o <value>) | (pi T:<t>*) | (L tree*) | (T tree*) | (D (<hexkey> tree)*)
+            (pi ..) is a pd.Index object as a MEMBER: no timeseries, passes through
+   how    : ij | oj | lj | rj          colhow : ij | oj | lj | rj | N
+   method : N | ffill | bfill | (M m*) | (MT m*) | (M1 m)    method lists / numeric methods as in FillDriver
+   limit  : N | I:<k>                  (only df_reindex has one)
    join   : <how> | (X T:<t>*) | (XS T:<t>*) | (XD T:<t>*)   explicit index given as pd.Index / as a Series / as dict(index=..)
-   ops    : (align sync <tree> <join> <method> <colhow>)  (align reindex <tree> <join>|(N I:<n>) <method>)
+   ops    : (align sync <tree> <join> <method> <colhow>)  (align reindex <tree> <join>|(N I:<n>) <method> [<limit>])
+            (align presyncn (T <tree>*) (D (<hexkey> <tree>)*) <hexname> <method>)   presync(f)(*args, join=<name of a parameter of f>, **kwargs);
+                                                                                      the positional arguments bind to p0, p1, ...
             (align index <tree> <how>)                    (align presync <tree> <how> <method>)
             (align presynck (T <tree>*) (D (<hexkey> <tree>)*) <join> <method>)     presync(f)(*args, columns=False, **kwargs) -/
 import PygModel.Align
@@ -24,6 +29,11 @@ partial def treeOf : Sexp → Option Tree
   | .node [.atom "o", x] => do
       let v ← Val.ofSexp x
       pure (.leaf (.other v))
+  | .node (.atom "pi" :: ts) => do
+      let ts ← ts.mapM fun t => match t with
+        | .atom s => if s.startsWith "T:" then (s.drop 2).toString.toInt? else Option.none
+        | _ => Option.none
+      pure (.leaf (.other (.dict [("pd.Index", .list (ts.map fun t => .cell (.dt t)))])))
   | .node (.atom "L" :: xs) => do
       let ks ← xs.mapM treeOf
       pure (.node .list (ks.map fun t => ("", t)))
@@ -44,7 +54,10 @@ partial def treeTo : Tree → Sexp
   | .leaf (.ts true f) => .node [.atom "ts", (TS.toVal (toTS f)).toSexp]
   | .leaf (.ts false f) => .node [.atom "df", (frameToVal f).toSexp]
   | .leaf (.arr c) => .node [.atom "arr", (colToVal c).toSexp]
-  | .leaf (.other v) => .node [.atom "o", v.toSexp]
+  | .leaf (.other v) =>
+    match asPdIndex v with
+    | some ix => .node (.atom "pi" :: ix.map fun t => .atom s!"T:{t}")
+    | Option.none => .node [.atom "o", v.toSexp]
   | .node .list ks => .node (.atom "L" :: ks.map fun k => treeTo k.2)
   | .node .tuple ks => .node (.atom "T" :: ks.map fun k => treeTo k.2)
   | .node .dict ks => .node (.atom "D" :: ks.map fun k => .node [.atom (hexEncode k.1), treeTo k.2])
@@ -60,6 +73,15 @@ def dirOf : Sexp → Option (Option Dir)
   | .atom "N" => some Option.none
   | .atom "ffill" => some (some .ffill)
   | .atom "bfill" => some (some .bfill)
+  | _ => Option.none
+
+/-- `method`: nothing, one word, or a list / tuple / bare method in the spelling of the Fill driver; the flag says whether it
+is a BARE method (`loops` splits only lists / tuples over a container) -/
+def methodsOfA : Sexp → Option (Bool × List Method)
+  | .atom "N" => some (true, [])
+  | .atom "ffill" => some (true, [.ffill])
+  | .atom "bfill" => some (true, [.bfill])
+  | s@(.node (.atom h :: _)) => (methodsOf s).map fun ms => (h == "M1", ms)
   | _ => Option.none
 
 def colHowOf : Sexp → Option (Option How)
@@ -89,34 +111,47 @@ abbrev St := Unit
 def init : St := ()
 def modelName : String := "align"
 
+def replyPair (r : Res (Tree × Tree)) : String :=
+  replyTree (r.map fun r => .node .tuple [("", r.1), ("", r.2)])
+
+def reindexOp (t ix m lim : Sexp) : Option String := do
+  let t ← treeOf t; let ms ← methodsOfA m; let lim ← limitOf lim
+  match ix with
+  | .node [.atom "N", .atom n] =>
+      -- `df_reindex(arrays, n)`: an explicit common length
+      let n ← if n.startsWith "I:" then (n.drop 2).toString.toNat? else Option.none
+      pure (replyTree (reindexTreeM (.len n) ms.1 ms.2 lim t))
+  | .node (.atom _ :: _) =>
+      let idx ← explicitOf ix
+      pure (replyTree (reindexTreeM (.times idx) ms.1 ms.2 lim t))
+  | _ =>
+      let how ← howOf ix
+      -- `df_reindex(ts, 'oj')`: `df_index(ts, how)` flattens with `_list` (a top-level tuple is not opened)
+      pure (replyTree (reindexTreeM (dfIndex how t.flat) ms.1 ms.2 lim t))
+
 def handle1 (op : String) (args : List Sexp) : Option String := do
   match op, args with
   | "sync", [t, j, m, ch] =>
-      let t ← treeOf t; let j ← joinOf j; let m ← dirOf m; let ch ← colHowOf ch
-      pure (replyTree (syncJ j m ch t))
+      let t ← treeOf t; let j ← joinOf j; let ms ← methodsOfA m; let ch ← colHowOf ch
+      pure (replyTree (syncJM j ms.1 ms.2 ch t))
   | "presynck", [a, k, j, m] =>
-      let a ← treeOf a; let k ← treeOf k; let j ← joinOf j; let m ← dirOf m
+      let a ← treeOf a; let k ← treeOf k; let j ← joinOf j; let ms ← methodsOfA m
+      match a, k with
+      | .node .tuple aks, .node .dict kks => pure (replyPair (presyncCallM j ms.1 ms.2 aks kks))
+      | _, _ => Option.none
+  | "presyncn", [a, k, .atom name, m] =>
+      let a ← treeOf a; let k ← treeOf k; let name ← hexDecode name; let ms ← methodsOfA m
       match a, k with
       | .node .tuple aks, .node .dict kks =>
-          pure (replyTree ((presyncCall j m aks kks).map fun r => .node .tuple [("", r.1), ("", r.2)]))
+          let pnames := (List.range aks.length).map fun i => s!"p{i}"
+          let r ← presyncNamed name ms.1 ms.2 pnames aks kks
+          pure (replyPair r)
       | _, _ => Option.none
   | "presync", [t, how, m] =>
-      let t ← treeOf t; let how ← howOf how; let m ← dirOf m
-      pure (replyTree (presyncArgs how m t))
-  | "reindex", [t, ix, m] =>
-      let t ← treeOf t; let m ← dirOf m
-      match ix with
-      | .node [.atom "N", .atom n] =>
-          -- `df_reindex(arrays, n)`: an explicit common length
-          let n ← if n.startsWith "I:" then (n.drop 2).toString.toNat? else Option.none
-          pure (replyTree (reindexTree (.len n) m t))
-      | .node (.atom _ :: _) =>
-          let idx ← explicitOf ix
-          pure (replyTree (reindexTree (.times idx) m t))
-      | _ =>
-          let how ← howOf ix
-          -- `df_reindex(ts, 'oj')`: `df_index(ts, how)` flattens with `_list` (a top-level tuple is not opened)
-          pure (replyTree (reindexTree (dfIndex how t.flat) m t))
+      let t ← treeOf t; let how ← howOf how; let ms ← methodsOfA m
+      pure (replyTree (reindexTreeM (dfIndex how t.flatTop) ms.1 ms.2 Option.none t))
+  | "reindex", [t, ix, m] => reindexOp t ix m (.atom "N")
+  | "reindex", [t, ix, m, lim] => reindexOp t ix m lim
   | "index", [t, how] =>
       let t ← treeOf t; let how ← howOf how
       match dfIndex how t.flat with
